@@ -20,12 +20,12 @@ func TestC33(t *testing.T) {
 	r.Rule("(a) eight directed second-round scenarios (side-chain register/update/quit, relayer register/remove, NEO3 state-validator register/remove, " +
 		"validator candidacy), each repeated over pool sizes 4..maxN with random approval orders and noise, each followed by random operations; " +
 		"(b) random histories in which 35% of approval targets are requests that were already applied. Distinct = as in C32 (method, counts, pending/consumed state, caller class, verdict, effect)")
-	cfg := govmodel.Config{Property: "C33", Histories: r.N(150, 2500), Ops: r.N(80, 110), MinN: 4, MaxN: r.N(10, 25),
+	cfg := govmodel.Config{Property: "C33", Histories: r.N(150, 8000), Ops: r.N(80, 110), MinN: 4, MaxN: r.N(10, 25),
 		Wt:      govmodel.Weights{Node: 2, SideChain: 3, Relayer: 2, Neo3: 2, SecondRound: 35},
-		Scripts: govmodel.SecondRoundScripts(), ScriptReps: r.N(7, 66), RealSig: true}
+		Scripts: govmodel.SecondRoundScripts(), ScriptReps: r.N(7, 132), RealSig: true}
 	govmodel.Run(r, cfg)
 	r.Require("approvals_of_applied_requests", r.N(1000, 10000))
-	r.Require("scripted_histories", 8*r.N(7, 66))
+	r.Require("scripted_histories", 8*r.N(7, 132))
 	for _, k := range []string{govmodel.KApproveCandidate, govmodel.KApproveRegisterSC, govmodel.KApproveUpdateSC, govmodel.KApproveQuitSC,
 		govmodel.KApproveRegRelayer, govmodel.KApproveRemRelayer, govmodel.KApproveRegSV, govmodel.KApproveRemSV} {
 		r.Require("effect@"+k, r.N(7, 60))
